@@ -10,7 +10,8 @@ Confirm a seeded change and run the checks against it.
 """
 import json, os, subprocess, sys, time
 ROOT = os.path.dirname(os.path.dirname(os.path.abspath(__file__)))
-ENV = dict(os.environ, CARGO_NET_OFFLINE="true", RUST_BACKTRACE="0")
+ENV = dict(os.environ, CARGO_NET_OFFLINE="true", RUST_BACKTRACE="0",
+           VERIF_EVIDENCE_DIR=os.path.join(ROOT, "work", "seed_evidence"), VERIF_REPLAYS_DIR=os.path.join(ROOT, "work", "seed_replays"))
 
 
 def sh(cmd, cwd=None, timeout=3600):
